@@ -91,10 +91,18 @@ def cases(run):
                         samples.append(s)
                         break
             dsd, toks = [], []
+            for i, s in enumerate(samples):
+                if rng.random() < 0.15:
+                    # a channel function that produced nothing this round: neither data nor metadata,
+                    # whatever dimension / metadata length the channel declares
+                    s = dict(s, enc=[], data=b"", meta=b"", exp=[], mexp=[], empty=True)
+                    samples[i] = s
             for s in samples:
                 ch = chans[s["chid"]]
                 data = tuple(py_value(t, ch.typ) for t in s["enc"])
-                if ch.mlen in (1, 2, 4, 8):
+                if s.get("empty"):
+                    meta = ()
+                elif ch.mlen in (1, 2, 4, 8):
                     meta = (int.from_bytes(s["meta"], "little"),)
                 else:
                     meta = tuple(s["meta"])
